@@ -258,6 +258,11 @@ def check_accepted(ctx, c, iface, real, target, res, draws):
     alpha = float(_fr(c["alpha"]))
     draws = [float(v) for v in draws]
     ok = True
+    if not res["gammas"]:
+        # the read-off point (numpy.random.gamma behind cuqi.distribution.Gamma.sample) was never reached: the harness
+        # cannot see what is drawn - machinery failure, not a verdict on the sampler
+        from cuqiverif.core import MachineryError
+        raise MachineryError("conjugate sampler %s made no numpy.random.gamma request on %s: cannot read off the Gamma drawn from" % (iface, key))
     if len(res["gammas"]) < len(draws):
         ctx.mismatch("no_gamma_draw/" + sig, c, "a step of the conjugate sampler did not draw from numpy.random.gamma",
                      expected=len(draws), observed=len(res["gammas"]))
@@ -450,7 +455,11 @@ def replay_direct(ctx, c):
     key = "direct/tgt=%s/n=%d" % (c["tgt"], c["n"])
     n = c["n"]
     ids = c["chain"] if c["accept"] else [2, 4]
-    vec = lambda v: float(v) * (np.arange(n, dtype=float) + 1.0) / n
+    # scripted draws: distinct entries; mixed signs for the targets whose support is the whole space (a sampler that
+    # post-processes the draw - abs, clipping at 0 - must not go unnoticed); positive for the Gamma target
+    sgn = (lambda v: np.ones(n)) if c["tgt"] not in ("gaussian", "gmrf") else \
+        (lambda v: np.where((np.arange(n) + int(v) // 2) % 2 == 1, -1.0, 1.0))
+    vec = lambda v: float(v) * sgn(v) * (np.arange(n, dtype=float) + 1.0) / n
     # (a) target.sample scripted on the instance
     target = _direct_target(c)
     ctx.case((key, "scripted_sample", tuple(ids)), facet="direct/" + ("accept" if c["accept"] else "reject"))
@@ -523,8 +532,10 @@ def replay_direct(ctx, c):
             ctx.mismatch("direct_chain/" + key + "/scripted_generator", c, "the chain of Direct is not a sequence of draws of the "
                          "target's sampling method", expected=exp, observed=chain)
         for fn, kind, shape, args in log:
+            if kind != "gamma":
+                raise MachineryError("unexpected random draw %s of kind %s while Direct samples a Gamma target" % (fn, kind))
             a, sc = np.asarray(args["shape"], float).ravel(), np.asarray(args["scale"], float).ravel()
-            if kind != "gamma" or not np.allclose(a, 2.0) or not np.allclose(1 / sc, 0.5):
+            if not np.allclose(a, 2.0) or not np.allclose(1 / sc, 0.5):
                 ctx.mismatch("direct_draw_args/" + key, c, "Direct does not draw from the target's own distribution",
                              expected=("gamma", 2.0, 0.5), observed=(kind, a, 1 / sc))
 
